@@ -26,7 +26,12 @@ async fn run_language_server_impl(_arg: LspArg, project: Result<ProjectConfig>) 
   let config_base = project_config.project_dir;
   let (service, socket) =
     LspService::build(|client| Backend::new(client, config_base, config_result_std)).finish();
-  Server::new(stdin, stdout, socket).serve(service).await;
+  // handle one message at a time: text synchronization notifications must be applied in the
+  // order they were sent (a didChange overtaking its didOpen was silently dropped)
+  Server::new(stdin, stdout, socket)
+    .concurrency_level(1)
+    .serve(service)
+    .await;
   Ok(())
 }
 
